@@ -70,8 +70,9 @@ def item_to_model(it):
     return "%s %s -- %s" % (k, " ".join(opts), " ".join(hx(p) for p in it[2]))
 
 
-def history_to_model(cfg, items):
-    return "repo %s %s %s | %s" % (cfg["algo"], cfg["method"], cfg["tob"], " ; ".join(item_to_model(i) for i in items))
+def history_to_model(cfg, items, fx="0000"):
+    """fx: the switches of Repo/Fix.v the model runs under, "<fixed_P44><fixed_P41><fixed_P49><fixed_P43>" """
+    return "repo %s %s %s fx=%s | %s" % (cfg["algo"], cfg["method"], cfg["tob"], fx, " ; ".join(item_to_model(i) for i in items))
 
 
 def item_to_json(it):
@@ -366,9 +367,144 @@ class RealRun:
         self.repo.cleanup()
 
 
-def run_model(model_bin, cfg, items_list):
-    """items_list: list of histories; returns list of lists of canonical observations"""
-    lines = [history_to_model(cfg_i, items) for cfg_i, items in items_list]
+# ---- which repairs does the binary under test contain? ---------------------------------------------------
+# The switches of Repo/Fix.v are never assumed: every run probes the binary with small histories whose outcome
+# differs between the code as Repo/Model.v has it and the repaired code.  A probe that fits neither (a half-applied
+# or altered repair) raises ProbeError: the caller reports it as a correspondence failure.
+class ProbeError(Exception):
+    pass
+
+
+_SAME, _CRLF = b"same", b"a\r\nb\r\n"
+PROBES = {
+    # P42: two equal files, track --force --recheck-method hardlink, serial
+    "p42": (False, [("W", "p.txt", _SAME), ("W", "q.txt", _SAME), ("track", {"m": "hardlink", "f": True}, ["p.txt", "q.txt"])]),
+    # P41, hard link: a hard-linked path re-committed under another text-or-binary mode
+    "p41h": (False, [("W", "a.txt", _CRLF), ("track", {"m": "hardlink"}, ["a.txt"]), ("U", "a.txt"), ("track", {"t": "binary"}, ["a.txt"])]),
+    # P41, symlink: b.txt is a symlink to an object that came from a.txt (other stamp), re-committed in binary mode
+    "p41s": (False, [("W", "a.txt", _CRLF), ("track", {}, ["a.txt"]), ("W", "b.txt", _CRLF), ("track", {"m": "symlink"}, ["b.txt"]),
+                     ("track", {"t": "binary"}, ["b.txt"])]),
+    # P41, carry-in --force of a path that is a hard link to its own object, another path linked to it as well
+    "p41f": (False, [("W", "a.txt", _SAME), ("W", "b.txt", _SAME), ("track", {"m": "hardlink"}, ["a.txt", "b.txt"]), ("carry", {"f": True}, ["a.txt"])]),
+    # P49: carry-in of a deleted path together with a changed one
+    "p49": (False, [("W", "a.txt", _SAME), ("W", "b.txt", b"two"), ("track", {}, ["a.txt", "b.txt"]), ("D", "a.txt"), ("W", "b.txt", b"changed"),
+                    ("carry", {}, ["a.txt", "b.txt"]), ("recheck", {}, ["a.txt"])]),
+    # P43: track --recheck-method on tracked, unchanged paths: after a touch (a.txt, a copy); without one (b.txt, a symlink: the book's scenario)
+    "p43": (False, [("W", "a.txt", _SAME), ("W", "b.txt", b"two"), ("track", {}, ["a.txt"]), ("track", {"m": "symlink"}, ["b.txt"]), ("U", "a.txt"),
+                    ("track", {"m": "hardlink"}, ["a.txt"]), ("track", {"m": "copy"}, ["b.txt"])]),
+}
+P44_PROBE = (True, [("W", "f%d.txt" % i, _SAME) for i in range(8)] + [("track", {"m": "hardlink"}, ["f%d.txt" % i for i in range(8)])])
+PROBE_CFG = {"algo": "b3", "method": "copy", "tob": "auto"}
+
+
+def _probe_run(xvc, probe, all_obs=False, attempts=2):
+    """a run that could not be completed (time-out on an overloaded machine, scratch directory trouble) is repeated once"""
+    par, items = probe
+    for k in range(attempts):
+        rr = None
+        try:
+            rr = RealRun(xvc, PROBE_CFG, parallel=par)
+            obs, _ = rr.run(items)
+            if all_obs:
+                return obs
+            return obs[-1] if len(obs) == len(items) else None
+        except (OSError, TimeoutError):
+            if k + 1 == attempts:
+                raise
+        finally:
+            if rr is not None:
+                try:
+                    rr.close()
+                except Exception:   # noqa: BLE001
+                    pass
+
+
+def probe_fixes(xvc):
+    """-> (fx, details): fx = "<fixed_P44><fixed_P41><fixed_P49><fixed_P43>" for Repo/Fix.v; raises ProbeError when inconclusive"""
+    from concurrent.futures import ThreadPoolExecutor
+    names = list(PROBES)
+    with ThreadPoolExecutor(len(names)) as ex:
+        res = dict(zip(names, ex.map(lambda n: _probe_run(xvc, PROBES[n], all_obs=(n == "p49")), names)))
+    det = {}
+
+    def kinds(o, paths):
+        return [(o["ws"].get(p) or ["-"])[0][:1] for p in paths] if o else None
+    # P42 / P44
+    k = kinds(res["p42"], ["p.txt", "q.txt"])
+    if k is None or res["p42"]["oc"] != "Ok" or len(res["p42"]["objs"]) != 1 or sorted(k) not in (["H", "H"], ["F", "H"]):
+        raise ProbeError("probe p42 (track --force --recheck-method hardlink of two equal files) fits neither the code as modelled nor the repair: %s" % short(res["p42"] and res["p42"]["ws"]))
+    p44 = sorted(k) == ["H", "H"]
+    det["p42"] = "both targets linked to the object" if p44 else "one target left unlinked"
+    if p44:
+        # the repair also serialises the targets of one cache path in parallel mode: no run may show the race
+        with ThreadPoolExecutor(4) as ex:
+            runs = list(ex.map(lambda _: _probe_run(xvc, P44_PROBE), range(4)))
+        bad = [o for o in runs if o is None or o["oc"] != "Ok" or any(e[0][:1] != "H" for e in o["ws"].values()) or len(o["ws"]) != 8]
+        det["p44"] = "%d of 4 parallel runs of 8 equal files show the race" % len(bad)
+        if bad:
+            raise ProbeError("track --force of duplicates is repaired in serial mode, but parallel mode still races on one cache path (half-applied repair of P44): %s" % short(bad[0] and bad[0]["ws"]))
+    # P41
+    o = res["p41h"]
+    if o is None or o["oc"] != "Ok" or len(o["objs"]) != 2:
+        raise ProbeError("probe p41h (hard-linked path re-committed in binary mode) did not create a second object: %s" % short(o and o["objs"]))
+    h = len(set(o["ino"].values())) == 2
+    o = res["p41s"]
+    if o is None or o["oc"] != "Ok" or len(o["objs"]) != 2:
+        raise ProbeError("probe p41s (symlinked path re-committed in binary mode) did not create a second object: %s" % short(o and o["objs"]))
+    sk = sorted(e[0][:1] for e in o["objs"].values())
+    if sk not in (["F", "F"], ["F", "L"]):
+        raise ProbeError("probe p41s: unexpected cache entries %s" % short(o["objs"]))
+    sl = sk == ["F", "F"]
+    o = res["p41f"]
+    k = kinds(o, ["a.txt", "b.txt"])
+    if o is None or o["oc"] != "Ok" or k is None or k[0] != "H":
+        raise ProbeError("probe p41f (carry-in --force of a hard link to its own object): %s" % short(o and o["ws"]))
+    det["p41"] = "hard link: %s; symlink: %s; forced hard link: other path %s" % (
+        "content copied" if h else "link renamed", "content copied" if sl else "link renamed", "still linked" if k[1] == "H" else "detached")
+    if h != sl or k[1] != "H":
+        raise ProbeError("the probes of P41 disagree (half-applied repair): " + det["p41"])
+    # P49: as the code was, carry-in panics on the deleted path (the run stops there: no last observation); repaired, the
+    # changed path is committed, the deleted one keeps its record and recheck restores it
+    obs = res["p49"]
+    if len(obs) == 6 and obs[5]["oc"] == "Panic" and obs[5]["recs"].get("b.txt", ["-"])[0] == obs[2]["recs"].get("b.txt", ["?"])[0] and len(obs[5]["objs"]) == 2:
+        p49 = False
+        det["p49"] = "carry-in of a deleted path panics, nothing is committed"
+    else:
+        o = obs[-1] if len(obs) == 7 else None
+        ok = (o is not None and o["oc"] == "Ok" and obs[5]["oc"] == "Ok" and (o["ws"].get("a.txt") or ["-", "-", ""])[2] == _SAME.hex() and len(o["objs"]) == 3
+              and o["recs"].get("b.txt", ["-"])[0].endswith(ref_hash("b3", b"changed")) and o["recs"].get("a.txt") == obs[2]["recs"].get("a.txt"))
+        if not ok:
+            raise ProbeError("probe p49 (carry-in of a deleted and a changed path, then recheck of the deleted one) fits neither the code as modelled nor the repair: %s" % short([(x["oc"], x["recs"], sorted(x["ws"])) for x in obs[5:]]))
+        p49 = True
+        det["p49"] = "the deleted path is left alone and stays restorable, the changed path is committed"
+    # P43: as the code was, a.txt stays a copy (only the record says hardlink) and b.txt stays a symlink; repaired, a.txt is a hard
+    # link and b.txt a copy, and the records say so
+    o = res["p43"]
+    k = kinds(o, ["a.txt", "b.txt"])
+    meth = [o["recs"].get(p, ["-", "-"])[1] for p in ("a.txt", "b.txt")] if o else None
+    if o is None or o["oc"] != "Ok" or (k, meth) not in ((["F", "L"], ["hardlink", "symlink"]), (["H", "F"], ["hardlink", "copy"])):
+        raise ProbeError("probe p43 (track --recheck-method on tracked, unchanged paths) fits neither the code as modelled nor the repair: kinds %s, recorded methods %s" % (k, meth))
+    p43 = k == ["H", "F"]
+    det["p43"] = "unchanged targets are re-materialised with the method of the command line" if p43 else "unchanged targets keep their entries"
+    return ("1" if p44 else "0") + ("1" if h else "0") + ("1" if p49 else "0") + ("1" if p43 else "0"), det
+
+
+_FIXES = {}
+
+
+def current_fixes(xvc=None, details=False):
+    """the switches of the binary under test, probed once per process"""
+    xvc = xvc or C.ensure_xvc()
+    if xvc not in _FIXES:
+        _FIXES[xvc] = probe_fixes(xvc)
+    return _FIXES[xvc] if details else _FIXES[xvc][0]
+
+
+def run_model(model_bin, cfg, items_list, fx=None):
+    """items_list: list of histories; returns list of lists of canonical observations.  fx: the model
+    switches; None = those the binary under test was found to have (probe_fixes)"""
+    fx = current_fixes() if fx is None else fx
+    lines = [history_to_model(cfg_i, items, fx) for cfg_i, items in items_list]
     rc, out = C.run_lines(model_bin, lines, shards=4)
     res = []
     for l in out:
@@ -386,14 +522,15 @@ def first_mismatch(mobs, robs):
     return None
 
 
-def correspond(model_bin, cfg, eff_items, robs, max_tries=48):
+def correspond(model_bin, cfg, eff_items, robs, max_tries=48, fx=None):
     """compares the model with the real observations.  The order in which a multi-target command
     visits its targets is a parameter of the model (HashMap iteration order, rayon): the order read
     from the implementation's log is tried first, then, on a mismatch, the permutations of the
     targets of the multi-target track / carry-in commands up to the mismatching item.
     Returns None (agreement for some visiting order) or (item index, differences, tries)."""
     import itertools
-    mobs = run_model(model_bin, None, [(cfg, eff_items)])[0]
+    fx = current_fixes() if fx is None else fx
+    mobs = run_model(model_bin, None, [(cfg, eff_items)], fx)[0]
     mm = first_mismatch(mobs, robs)
     if mm is None:
         return None
@@ -410,7 +547,7 @@ def correspond(model_bin, cfg, eff_items, robs, max_tries=48):
         cands.append(items)
         if len(cands) >= max_tries:
             break
-    allobs = run_model(model_bin, None, [(cfg, c) for c in cands])
+    allobs = run_model(model_bin, None, [(cfg, c) for c in cands], fx)
     best = mm
     for items, mo in zip(cands, allobs):
         tries += 1
